@@ -95,7 +95,13 @@ func oracleC08(p *plan.Plan, his []plan.Rec, res *plan.Result) {
 			h := &hold{lock: r, certainFrom: r.TRet, possFrom: r.TInv, certainTo: inf, possTo: inf}
 			if r.Op.Dur > 0 {
 				h.timed = true
-				h.certainTo = r.TInv + r.Op.Dur*ms - ms
+				// the timeout counts from the acquisition: the successful attempt of a Lock that had to
+				// wait was made at most one round trip (plus pauses) before it returned
+				from := r.TInv
+				if t := r.TRet - 2*maxLat; t > from {
+					from = t
+				}
+				h.certainTo = from + r.Op.Dur*ms - ms
 				h.possTo = r.TRet + r.Op.Dur*ms
 			}
 			holds[[2]int{r.Client, r.Idx}] = h
@@ -147,7 +153,13 @@ func oracleC08(p *plan.Plan, his []plan.Rec, res *plan.Result) {
 				}
 			} else {
 				h.timed = true
-				h.certainTo = r.TInv + r.Op.Dur*ms - ms
+				// the timeout counts from the acquisition: the successful attempt of a Lock that had to
+				// wait was made at most one round trip (plus pauses) before it returned
+				from := r.TInv
+				if t := r.TRet - 2*maxLat; t > from {
+					from = t
+				}
+				h.certainTo = from + r.Op.Dur*ms - ms
 				h.possTo = r.TRet + r.Op.Dur*ms
 			}
 		}
